@@ -60,6 +60,24 @@ fn case(m: usize, a: &[u64], b: &[u64]) -> Option<(String, String)> {
         if r.merge(&other).is_ok() { return Some((format!("merge accepted different parameters (db={db}, dq={dq}, dm={dm})"), "Err".into())); }
         if r.get_signature() != &sig || r.get_nb_overflow() != ov || r.get_low_sketch() != low { return Some(("refused merge modified the receiver".into(), "unchanged".into())); }
     }
+    // a refused merge (same m and q, different a or b) with a much larger argument: the receiver's lower bound must not move,
+    // and streaming on must still give the sketch of everything streamed
+    for (db, da) in [(0.0f64, 10.0f64), (0.002, 0.0)] {
+        let q = SetSketchParams::new(p.get_b() + db, m as u64, p.get_a() + da, p.get_q());
+        let big: Vec<u64> = (0..(60 * m as u64 + 200)).map(|i| i * 13 + 5_000_000).collect();
+        let other = mk(q, &big);
+        let mut r = mk(p, a);
+        let sig = r.get_signature().clone(); let low = r.get_low_sketch();
+        if r.merge(&other).is_ok() { return Some((format!("merge accepted different parameters (db={db}, da={da})"), "Err".into())); }
+        if r.get_signature() != &sig || r.get_low_sketch() != low {
+            return Some((format!("refused merge (db={db}, da={da}) modified the receiver: get_low_sketch {} -> {}", low, r.get_low_sketch()), "unchanged".into()));
+        }
+        let more: Vec<u64> = (0..(8 * m as u64 + 40)).map(|i| i * 11 + 700_000).collect();
+        for x in &more { r.sketch(x).unwrap(); }
+        let mut all = a.to_vec(); all.extend_from_slice(&more);
+        let fresh = mk(p, &all);
+        if r.get_signature() != fresh.get_signature() { return Some(("streaming after a refused merge differs from sketching everything".into(), "equal".into())); }
+    }
     // SuperMinHash: sketch of a set == position-wise min of single-item sketches
     let mut s = crate::superminhasher::SuperMinHash::<f64, u64, FnvHasher>::new(m, bh());
     for x in a { s.sketch(x).unwrap(); }
